@@ -246,6 +246,37 @@ Theorem C06_full_solver_spec : forall a wgp wvec vs0 ms, fwf_inputb wgp wvec vs0
     (forall off, exec ms st0 (Mem 0 off) = st0 (Mem 0 off)).
 Proof. exact fsolve_spec. Qed.
 Print Assumptions C06_full_solver_spec.
+(* byte level, as theorems about the function rather than per emitted sequence: every memory write of a successful run is a store from a
+   register to the destination slot of one variable that replaces exactly the bytes of its destination type (32-bit x86: a byte held in
+   ESI / EDI / EBP / ESP is stored 32 bits wide - the recorded store-wider-than-slot shape); hence, when the destination slots of the
+   assignment are pairwise disjoint byte ranges, no two stores to different slots overlap *)
+Theorem C06_full_solver_stores_exact : forall a wgp wvec vs0 ms, fwf_inputb wgp wvec vs0 = true -> farch_okb a vs0 = true -> fsolve a wgp wvec vs0 = SOk ms ->
+  forall i, In i ms -> store_exact a vs0 i.
+Proof. exact fsolve_stores_exact. Qed.
+Print Assumptions C06_full_solver_stores_exact.
+Theorem C06_full_solver_stores_disjoint : forall a wgp wvec vs0 ms, fwf_inputb wgp wvec vs0 = true -> farch_okb a vs0 = true -> a <> FX86 ->
+  fsolve a wgp wvec vs0 = SOk ms -> slots_disjoint vs0 ->
+  forall a1 o1 s1 e1 n1 w1 z1 a2 o2 s2 e2 n2 w2 z2,
+    In (IExt (Mem a1 o1) s1 e1 n1 w1 z1) ms -> In (IExt (Mem a2 o2) s2 e2 n2 w2 z2) ms -> o1 <> o2 ->
+    8 * o1 + z1 <= 8 * o2 \/ 8 * o2 + z2 <= 8 * o1.
+Proof. exact fsolve_stores_disjoint. Qed.
+Print Assumptions C06_full_solver_stores_disjoint.
+(* non-vacuity: the mixed example has two pairwise disjoint destination slots and two stores; the 32-bit x86 exception is real *)
+Theorem C06_full_solver_stores_examples :
+  (slots_disjointb ex_mixed = true /\
+   match fsolve FX64 ex_wgp ex_wvec ex_mixed with
+   | SOk ms => List.length (filter (fun i => match i with IExt (Mem _ _) _ _ _ _ _ => true | _ => false end) ms) = 2%nat
+   | _ => False
+   end) /\
+  (match fsolve FX86 [1;2;6;7] [0;1] ex_x86 with
+   | SOk ms => In (IExt (Mem 1 0) (Reg 0 6) EZ 32 32 32) ms
+   | _ => False
+   end /\ nth_error ex_x86 0 = Some (finit (Mem 0 4) 1 true (Mem 1 0) 1 true true)).
+Proof. exact (conj ex_mixed_stores_disjoint ex_x86_wide_byte_store). Qed.
+Print Assumptions C06_full_solver_stores_examples.
+Theorem C06_full_solver_slots_disjointb_sound : forall vs, slots_disjointb vs = true -> slots_disjoint vs.
+Proof. exact slots_disjointb_sound. Qed.
+Print Assumptions C06_full_solver_slots_disjointb_sound.
 Theorem C06_full_solver_example_avx :
   fwf_inputb [0;6;7] [0;1;2;3] ex_avx = true /\ farch_okb FX64A ex_avx = true /\ farch_okb FX64 ex_avx = false /\
   fsolve FX64A [0;6;7] [0;1;2;3] ex_avx =
